@@ -37,8 +37,14 @@ def run(ctx):
     ctx.rule("R16-4", "the tokenizer of the script path reads the same characters as the splitter of the -c path: parse_line "
                       "(the only tokenizer that sees `||` / `&&` / `;`, and only on the script path) never uses its character "
                       "counter as a byte offset (E-ISPACE)")
+    ctx.rule("R16-5", "a list operator right after a closing quote still separates commands on the script path: the script path "
+                      "tokenizes the whole line before run_command_line splits it, and the tokenizer glues what follows a "
+                      "closing quote onto the quoted word - so reading `;` or `&` in the `quote just closed` state must end "
+                      "the word (explored over parse_line's character loop), otherwise `echo 'a'; echo b` is re-rendered as "
+                      "`echo 'a; echo b'` and runs one command where -c runs two")
     for crate in ctx.crates:
         funnel_rule(ctx, crate)
+        operator_after_quote_rule(ctx, crate)
         renderer_rule(ctx, crate)
         dq_roundtrip_rule(ctx, crate)
         from .. import ispace
@@ -263,3 +269,18 @@ def dq_roundtrip_rule(ctx, crate):
                key="R16-3|%s|dq-unescaped-not-reescaped|%s" % (b.path, name), where=b.loc(bad[0]), crate=crate.kind,
                detail=None if ok else "a script line with \"..\\%s..\" is unescaped once more than the same line given to -c "
                "(wrap_sep_string re-escapes only {%s})" % (X, ", ".join(sorted(extra | ({'\"'} if tagchar else set())))))
+
+
+def operator_after_quote_rule(ctx, crate):
+    from .c10 import explore_after_close
+    for X in (";", "&"):
+        r = explore_after_close(ctx, crate, "R16-5", X)
+        if r is None:
+            return
+        b, found, _ = r
+        ok = found["glued"] == 0 and found["ended"] > 0
+        ctx.ob("R16-5", b.path, "reading %r right after a closing quote ends the quoted word (%d path(s) end it, %d append the "
+                                "character to it)" % (X, found["ended"], found["glued"]), ok,
+               key="R16-5|%s|operator-after-quote|%s" % (b.path, X), crate=crate.kind,
+               detail=None if ok else "the character joins the quoted word: a script line `cmd 'a'%s next` is re-rendered with the "
+               "operator inside the quotes and `next` never runs as a command of its own" % (X if X == ";" else "&&"))
